@@ -234,9 +234,6 @@ func getHModel(P *Program) *hModel {
 	if m.NewDeny == nil {
 		miss("newdeny")
 	}
-	if m.SessionErrDeny == nil {
-		miss("sessionerrdeny")
-	}
 
 	// ---- redirect
 	rd := R.Redirect
